@@ -93,3 +93,35 @@ func verifC10KeySeparationMulti(maxVal int) {
 
 func VerifHarness_C10_KeySeparationMulti_1() { verifC10KeySeparationMulti(1) }
 func VerifHarness_C10_KeySeparationMulti_2() { verifC10KeySeparationMulti(2) }
+
+// C10-O2c: label sets over the same names whose values are permuted between
+// names are different sets and must get different keys (whatever the hash).
+func verifC10KeyPermutation(n int) {
+	names := []string{"a", "b", "c"}[:n]
+	vals := make([]string, n)
+	for i := range vals {
+		vals[i] = vsymString("val", vsymChoice("len", 2))
+	}
+	// permutation: rotate by one, or swap the first two
+	perm := make([]string, n)
+	if vsymChoice("perm", 2) == 0 {
+		for i := range perm {
+			perm[i] = vals[(i+1)%n]
+		}
+	} else {
+		copy(perm, vals)
+		perm[0], perm[1] = perm[1], perm[0]
+	}
+	same := true
+	for i := range vals {
+		same = vsymAnd(same, vals[i] == perm[i])
+	}
+	ka := newAggregatedLabels(verifLabelSet(names, vals), nil, nil).Key()
+	kb := newAggregatedLabels(verifLabelSet(names, perm), nil, nil).Key()
+	vsymAssert(vsymImplies(vsymNot(same), ka != kb), "which value belongs to which label matters: permuted values are a different series")
+	vsymAssert(vsymImplies(same, ka == kb), "equal label sets share a key")
+	vsymReach("C10_key_permutation")
+}
+
+func VerifHarness_C10_KeyPermutation_2() { verifC10KeyPermutation(2) }
+func VerifHarness_C10_KeyPermutation_3() { verifC10KeyPermutation(3) }
